@@ -192,7 +192,9 @@ OpSpace ==
 \* The polynomial / commitment / state lists handed to batch_open, open_combinations and their verifiers are
 \* keyed by label: the order in which the caller lists them carries no meaning.  `perm` = 0: ascending labels
 \* on both sides; 1: the prover's lists reversed; 2: the verifier's commitment list reversed; 3: both.
-ListOrders == IF Mode = "C01" /\ MaxPolys >= 2 THEN {0, 1, 2, 3} ELSE {0}
+\* (C11: only in the long random histories -- MaxOps >= 4 is the simulation configuration -- the exhaustive
+\*  models of 2 / 3 operations would grow 16- / 64-fold)
+ListOrders == IF (Mode = "C01" \/ (Mode = "C11" /\ MaxOps >= 4)) /\ MaxPolys >= 2 THEN {0, 1, 2, 3} ELSE {0}
 OpSpaceP0 == {o @@ [perm |-> p] : o \in OpSpace, p \in ListOrders} \ {o @@ [perm |-> p] : o \in {x \in OpSpace : x.kind = "open"}, p \in {1, 2, 3}}
 \* Open-stage admission (C04, C17): the polynomial is handed to the prover DECLARED with another degree bound
 \* than the one it was committed under -- one it exceeds, or one the keys were not trimmed for.  The prover must
